@@ -138,6 +138,11 @@ def do_request(world, req):
     if kind == "bad_path":
         st_, v = call(W.by_path, req[1])
         return ("RAISES" if st_ == "exc" else ["RETURNED", str(v)]), []
+    if kind == "other_wallet":
+        # a second, short-lived wallet object of the OTHER network is put on the very same root node object and used once
+        other = type(W)(master=W.master, testnet=not world.testnet) if req[1] else type(W)(W.master, not world.testnet)
+        call(other.p2wpkh_address, other.master)
+        return "OK", []
     if kind == "ckd":
         node, path = world.node(req[1])
         ch = node.ckd(req[2])
@@ -249,6 +254,8 @@ def expected(world, req, pool_paths):
         return ref_summary(rm, req[1], tn)
     if kind == "bad_path":
         return "RAISES"
+    if kind == "other_wallet":
+        return "OK"
     if kind == "ckd":
         return ref_summary(rm, ppath(req[1]) + [req[2]], tn)
     if kind == "derive_path":
@@ -374,6 +381,7 @@ def requests(light=False):
         st.tuples(st.just("by_path"), short_path(4)),
         st.tuples(st.just("by_path"), short_path(4)),
         st.tuples(st.just("bad_path"), st.sampled_from(BAD_PATHS)),
+        st.tuples(st.just("other_wallet"), st.booleans()),
         st.tuples(st.just("ckd"), p, idx()),
         st.tuples(st.just("ckd"), p, idx()),
         st.tuples(st.just("derive_path"), p, short_path(3)),
@@ -746,8 +754,52 @@ def check_scan(case, ctx):
                 raise Violation("C13/scan/generator-yield", "yield %d of a %d-address scan was %r" % (i, count, first[i]))
 
 
+def enum_deep_caller(tier):
+    for j, n in enumerate((250, 254) if tier == "quick" else (250, 254, 255, 252)):
+        yield {"seed": bytes([0x40 + j]) * 16, "levels": n, "margin": 160, "side": "prv" if j % 2 == 0 else "pub"}
+
+
+def check_deep_caller(case, ctx):
+    """One derive_path request of up to 250 levels made by a caller whose own stack is already deep (`margin` frames below
+    the interpreter's recursion limit): the answer is the one single ckd steps give from an ordinary stack."""
+    import sys
+    from btc_hd_wallet.bip32 import PrvKeyNode, PubKeyNode
+    rm = R.master(case["seed"])
+    hard = case["side"] == "prv"
+    path = [((7 * j + 1) % 1000) + (H if hard else 0) for j in range(case["levels"])]
+    try:
+        want = R.derive(rm if hard else rm.neuter(), path)
+    except R.Invalid:
+        return
+    root = PrvKeyNode.master_key(case["seed"]) if hard else PubKeyNode.parse(rm.xpub(R.XPUB))
+    step = root
+    for i in path:
+        step = step.ckd(i)
+
+    def at_depth(n):
+        if n > 0:
+            return at_depth(n - 1)
+        return call(root.derive_path, list(path))
+    f, have = sys._getframe(), 0
+    while f is not None:
+        have, f = have + 1, f.f_back
+    st_, got = at_depth(max(0, sys.getrecursionlimit() - have - case["margin"]))
+    if st_ == "exc":
+        raise Violation("C13/deep-caller/raised", "derive_path(<%d levels>) called %d frames below the recursion limit raised %r; "
+                        "the same levels as single ckd steps succeed" % (case["levels"], case["margin"], got))
+    for what, a, b in (("key", bytes(got.key)[-32:], bytes(step.key)[-32:]), ("chain code", bytes(got.chain_code), want.c),
+                       ("depth", got.depth, len(path))):
+        if a != b:
+            raise Violation("C13/deep-caller/differs", "derive_path(<%d levels>) %s differs from the step-by-step result" % (case["levels"], what))
+
+
 def clauses():
     return [
+        Clause("deep-caller", check_deep_caller,
+               "one derive_path request of 250..255 levels (private hardened, public normal) from a caller whose stack is "
+               "within 160 frames of the recursion limit; equals single ckd steps and the reference",
+               enum=enum_deep_caller, exhaustive=True, enum_desc="2 (4) path lengths", nontrivial=lambda c: True,
+               shards={"quick": 2, "thorough": 4}),
         Clause("history", check_history,
                "1..40 requests on one wallet and its shared nodes, each answer compared with the independent model / a "
                "fresh wallet; failing lookups must fail every time; address generators: k-th yield has index "
